@@ -21,6 +21,11 @@ func init() {
 					Type: "symbol|lambda",
 					Text: "The function to call for each entry in _lists_.",
 				},
+				{
+					Name: "list",
+					Type: "list",
+					Text: "The first list.",
+				},
 				{Name: "&rest"},
 				{
 					Name: "lists",
